@@ -6,6 +6,7 @@
 //! a behaviour of the specification.  The harness itself never judges.
 
 mod agg_drv;
+mod cluster_drv;
 mod core_drv;
 mod persist_drv;
 mod sock_drv;
@@ -22,6 +23,7 @@ fn main() {
     let code = match args[1].as_str() {
         "core-run" => core_drv::main_run(&args[2..]),
         "agg-run" => agg_drv::main_run(&args[2..]),
+        "cluster-run" => cluster_drv::main_run(&args[2..]),
         "persist-run" => persist_drv::main_run(&args[2..]),
         "sock-run" => sock_drv::main_run(&args[2..]),
         other => {
